@@ -18,7 +18,7 @@ from ..translate import codata, uregdefs
 
 PID = "C03"
 ALLOWED_AXIOMS = set()
-EXTRA_TARGETS = ["Model/Units.vo", "Model/UnitsText.vo"]
+EXTRA_TARGETS = ["Model/Units.vo", "Model/UnitsText.vo", "Model/UnitsGlue.vo"]
 TOL_MODEL_EXP = -12          # model vs implementation
 TOL_EXACT = Fraction(1, 10 ** 12)
 # Oracle tolerances by BRIDGE KIND (the non-energy dimension involved) and context, from the measured worst deviation of the
@@ -46,6 +46,10 @@ TRUSTED = [
     "code transcribed by hand in Model/Units.v) and harness/translate/codata.py (shipped CODATA dicts)",
     "binary64 arithmetic of pint/Python is compared with the exact-rational model under a relative tolerance of 1e-12",
     "the independent SI oracle in harness/props/c03.py (physics formulas written by hand; values from raw_data/nist_data/codata-*.txt)",
+    "functools.lru_cache (maxsize 128, LRU order, exceptions not stored) and pint's Quantity/Unit __eq__/__hash__ (magnitude and units after "
+    "to_base_units(); unit container) are modelled in coq/Model/UnitsGlue.v, not verified; conversion_factor, the ureg property, Quantity and "
+    "Datum.to_units must be verbatim the code transcribed there (harness/translate/uregdefs.py check_glue, fail-closed); tied by call histories on "
+    "fresh objects, long-lived objects and the module-level singleton",
 ]
 ASSUMPTIONS = [
     "unit expressions are products/quotients/integer powers of (prefix, unit) atoms and positive rational prefactors; offset units "
@@ -731,6 +735,219 @@ def history_calls(order):
     return seq
 
 
+# ------------------------------------------------------------------------------------------------
+# glue stream (wave 3): the entry points themselves — conversion_factor with str / pint Quantity / pint Unit arguments and its
+# functools.lru_cache, on fresh context objects, on the long-lived ones and on the module-level singleton qcelemental.constants;
+# Datum.to_units (which goes through the singleton).  A HISTORY is a list of calls on ONE object; every answer is judged by the
+# oracle and the whole history is replayed by the model of the cache (Model/UnitsGlue.v: run).
+# An argument is ["s", text] | ["q", k, text] (the Quantity k * parse_expression(text)) | ["u", text] (the Unit of text).
+
+def garg(kind, e, k=1):
+    """argument descriptor + the expression it means"""
+    if kind == "s":
+        return (["s", render(e)], e)
+    if kind == "q":
+        return (["q", str(Fraction(k)), render(e)], MUL(N(k), e))
+    return (["u", render(e)], e)
+
+
+def build_arg(cobj, d):
+    if d[0] == "s":
+        return d[1]
+    if d[0] == "q":
+        return float(Fraction(d[1])) * cobj.ureg.parse_expression(d[2])
+    return cobj.ureg.parse_expression(d[1]).units
+
+
+def glue_call(cobj, da, db, via_datum=False):
+    if via_datum:
+        # Datum(label, units, data).to_units(units) = factor * data, through the module-level singleton
+        try:
+            from qcelemental.datum import Datum
+            r = Datum("x", da[1], 2.0).to_units(db[1])
+        except Exception as e:
+            return ("err", type(e).__name__)
+        if isinstance(r, float) and math.isfinite(r):
+            return ("val", r / 2.0)
+        return ("other", repr(r)[:80])
+    try:
+        a, b = build_arg(cobj, da), build_arg(cobj, db)
+    except Exception as e:
+        return ("other", "argument construction failed: " + repr(e)[:60])
+    return impl_call(cobj, a, b)
+
+
+def carg_term(d, e):
+    """Gallina carg for an argument descriptor (e = the expression of the descriptor's text, without the Quantity's magnitude)"""
+    if d[0] == "s":
+        return f"(AStr {cstr(d[1])})"
+    if d[0] == "q":
+        return f"(AQty {coqrun.cq(Fraction(d[1]))} {cexpr(e)})"
+    if d[0] == "u":
+        return f"(AUnit {cexpr(e)})"
+    return None
+
+
+def has_pow0(e):
+    if e[0] == "pow":
+        return e[2] == 0 or has_pow0(e[1])
+    if e[0] in ("mul", "div"):
+        return has_pow0(e[1]) or has_pow0(e[2])
+    return False
+
+
+def has_num(e):
+    if e[0] == "num":
+        return True
+    if e[0] == "pow":
+        return has_num(e[1])
+    if e[0] in ("mul", "div"):
+        return has_num(e[1]) or has_num(e[2])
+    return False
+
+
+def crosses_prefixed_bridge(si, a, b):
+    try:
+        return bool(prefixed_nist_sources(a)) and si.md(a)[1] != si.md(b)[1]
+    except KeyError:
+        return True
+
+
+GLUE_PINNED = [
+    # (calls: list of ((kindA, exprA, kA), (kindB, exprB, kB)))
+    # the cache must not identify a str with a Quantity, nor requests in different contexts
+    [(("s", MUL(N(2), A("bohr")), 1), ("s", A("angstrom"), 1)), (("q", A("bohr"), 2), ("s", A("angstrom"), 1)),
+     (("s", MUL(N(2), A("bohr")), 1), ("s", A("angstrom"), 1)), (("q", A("bohr"), 2), ("q", A("angstrom"), 1)),
+     (("q", A("bohr"), 2), ("q", A("angstrom"), 4)), (("s", A("bohr"), 1), ("q", A("angstrom"), 4)), (("s", A("bohr"), 1), ("s", A("angstrom"), 1))],
+    # identical-units fast paths: a prefactor with both sides the same unit
+    [(("q", A("bohr"), 2), ("s", A("bohr"), 1)), (("s", MUL(N(2), A("bohr")), 1), ("s", A("bohr"), 1)), (("s", A("bohr"), 1), ("q", A("bohr"), 4)),
+     (("q", A("hartree"), 3), ("q", A("hartree"), 3)), (("q", A("hartree"), 3), ("q", A("hartree"), 1)), (("s", A("hartree"), 1), ("s", A("hartree"), 1))],
+    # Quantities that pint calls equal (same magnitude and units after to_base_units) — same dimension: one answer
+    [(("q", A("meter"), 1), ("s", A("bohr"), 1)), (("q", A("meter", "centi"), 100), ("s", A("bohr"), 1)), (("q", A("meter", "milli"), 1000), ("s", A("bohr"), 1)),
+     (("q", A("meter"), 1), ("s", A("angstrom"), 1)), (("q", A("second"), 1), ("s", A("bohr"), 1)), (("q", A("meter"), 1), ("s", A("second"), 1))],
+    # equal magnitudes in different dimensions / same text on both sides
+    [(("q", A("joule"), 1), ("s", A("hartree"), 1)), (("q", A("hertz"), 1), ("s", A("hartree"), 1)), (("q", A("kelvin"), 1), ("s", A("hartree"), 1)),
+     (("q", A("gram", "kilo"), 1), ("s", A("hartree"), 1)), (("q", A("wavenumber"), 1), ("s", A("hartree"), 1)), (("q", A("joule"), 1), ("s", A("hartree"), 1)),
+     (("s", A("hartree"), 1), ("q", A("joule"), 1)), (("s", A("hartree"), 1), ("q", A("hertz"), 1))],
+    # zero and unit magnitudes
+    [(("q", A("bohr"), 0), ("s", A("angstrom"), 1)), (("q", A("second"), 0), ("s", A("angstrom"), 1)), (("q", A("bohr"), 1), ("s", A("angstrom"), 1)),
+     (("q", A("angstrom"), 0), ("s", A("bohr"), 1)), (("q", A("bohr"), 0), ("s", A("angstrom"), 1))],
+    # per-mole and default-route bridges with Quantity arguments
+    [(("q", DIV(A("calorie", "kilo"), A("mole")), 1), ("s", A("hartree"), 1)), (("q", DIV(A("calorie"), A("mole")), 1000), ("s", A("hartree"), 1)),
+     (("q", A("calorie", "kilo"), 1), ("s", A("hertz"), 1)), (("q", A("calorie"), 1000), ("s", A("hertz"), 1)),
+     (("s", A("hartree"), 1), ("q", DIV(A("calorie", "kilo"), A("mole")), 1)), (("q", DIV(A("calorie", "kilo"), A("mole")), 1), ("q", DIV(A("joule", "kilo"), A("mole")), 1))],
+]
+# the known finding seen through the cache: Quantity(1 MHz) and Quantity(1e6 Hz) are one key; whichever is asked first decides
+GLUE_POISON = [
+    [(("q", A("hertz", "mega"), 1), ("s", A("hartree"), 1)), (("q", A("hertz"), 1000000), ("s", A("hartree"), 1))],
+    [(("q", A("hertz"), 1000000), ("s", A("hartree"), 1)), (("q", A("hertz", "mega"), 1), ("s", A("hartree"), 1))],
+]
+
+
+_EN = [("hartree", "hartree"), ("joule", "joule"), ("electron volt", "electron_volt")]
+_OT = [("hertz", "hertz"), ("inverse meter", "1/meter"), ("kilogram", "kilogram"), ("kelvin", "kelvin")]
+PUBLISHED_EXACT = [(l, r) for l in _EN for r in _OT] + [(l, ("hartree", "hartree")) for l in _OT + [("atomic mass unit", "atomic_mass_unit")]]
+
+
+def glue_histories(ctx, si, base_cases):
+    """-> list of (year, objkind, calls) ; calls = list of (descA, exprA(with magnitude), rawA, descB, exprB, rawB, via_datum)"""
+    rng = ctx.rng
+    out = []
+    seen_by_obj = {}
+
+    def mk(calls):
+        res = []
+        for (ka, ea, na), (kb, eb, nb) in calls:
+            da, xa = garg(ka, ea, na)
+            db, xb = garg(kb, eb, nb)
+            res.append((da, xa, ea, db, xb, eb, False))
+        return res
+    for year in (2014, 2018):
+        for h in GLUE_PINNED + GLUE_POISON:
+            out.append((year, "fresh", mk(h)))
+        pool = [(a, b) for (st, y, a, b) in base_cases if y == year and not st.startswith(("compound", "unrelated", "same-prefixed"))
+                and not has_pow0(a) and not has_pow0(b)]
+        ks = [1, 2, 3, "0.5", "2.5", 1000, "0.001"]
+        for hno in range(60 if ctx.thorough else 24):
+            obj = ["fresh", "fresh", "long", "singleton"][hno % 4]
+            if obj == "singleton" and year != 2014:
+                obj = "long"
+            calls = []
+            picks = [rng.choice(pool) for _ in range(4)] + [rng.choice([c for c in pool if len(atoms_of(c[0])) == 1 and len(atoms_of(c[1])) == 1]) for _ in range(2)]
+            for a, b in picks:
+                variants = []
+                for _ in range(2):
+                    ka = rng.choice(["s", "s", "q", "q", "u"])
+                    kb = rng.choice(["s", "s", "s", "q", "u"])
+                    if has_num(a) and ka == "u":
+                        ka = "s"
+                    if has_num(b) and kb == "u":
+                        kb = "s"
+                    # Quantity keys are only used where the answer cannot depend on which pint-equal Quantity was asked first
+                    if ka == "q" and crosses_prefixed_bridge(si[year], a, b):
+                        ka = "s"
+                    na, nb = rng.choice(ks), rng.choice(ks)
+                    variants.append(((ka, a, na), (kb, b, nb)))
+                # the same request again later (a cache hit), and the reverse request
+                variants.append(variants[0])
+                variants.append((("s", b, 1), ("s", a, 1)))
+                calls += variants
+            rng.shuffle(calls)
+            # generator restriction: across a bridge two pint-equal Quantity sources spelled differently (1 N m and 1 J) may take
+            # different routes (default constant vs published relationship, 1e-10 apart) and the cache serves whichever came first;
+            # whether pint's binary64 == identifies them is a rounding accident, so only one spelling per quantity is sent as Quantity
+            seen_q = seen_by_obj.setdefault((year, obj if obj != "fresh" else ("fresh", hno)), {})
+            fixed = []
+            for (ka, a, na), (kb, b, nb) in calls:
+                try:
+                    bridge = si[year].md(a)[1] != si[year].md(b)[1]
+                    for which, (kk, e, n) in (("a", (ka, a, na)), ("b", (kb, b, nb))):
+                        if kk == "q" and bridge:
+                            m_, d_, _ = si[year].md(MUL(N(n), e))
+                            key = (which, m_, d_)
+                            if seen_q.setdefault(key, render(e)) != render(e):
+                                if which == "a":
+                                    ka = "s"
+                                else:
+                                    kb = "s"
+                except KeyError:
+                    ka, kb = "s", "s"
+                fixed.append(((ka, a, na), (kb, b, nb)))
+            res = mk(fixed)
+            if obj == "singleton":
+                # Datum.to_units goes through the singleton's conversion_factor with two str arguments
+                for i, c_ in enumerate(res):
+                    if c_[0][0] == "s" and c_[3][0] == "s" and rng.random() < 0.5:
+                        res[i] = c_[:6] + (True,)
+            out.append((year, obj, res))
+    return out
+
+
+def run_glue_history(year, objkind, calls, ctxs):
+    """-> (answers, object) ; a fresh object per history unless the history is for a long-lived one"""
+    if objkind == "fresh":
+        cobj = fresh_context(year)
+    elif objkind == "singleton":
+        import qcelemental
+        cobj = qcelemental.constants
+    else:
+        cobj = ctxs[year]
+    outs = []
+    for da, _xa, _ea, db, _xb, _eb, via in calls:
+        outs.append(glue_call(cobj, da, db, via_datum=via))
+    return outs
+
+
+def pint_equal(si, xa, xb):
+    """do the two expressions denote the same quantity (what pint's Quantity.__eq__/__hash__ identify)?"""
+    try:
+        ma, da, _ = si.md(xa)
+        mb, db, _ = si.md(xb)
+    except KeyError:
+        return False
+    return da == db and ma == mb
+
+
 def correspond(ctx):
     corr = Corr()
     corr.rule = ("per dimension (length, mass, time, charge, energy, energy/mol, dipole, force, pressure, frequency, wavenumber, temperature): all "
@@ -910,6 +1127,78 @@ def correspond(ctx):
                 if o1 is not None and not same_answer(o0, o1):
                     corr.failures.append({"stream": "oracle:history", "case": {"year": year, "a": k[0], "b": k[1], "order_dependent": True},
                                           "what": f"{k[0]!r} -> {k[1]!r} gives {o0} or {o1} depending on which colliding spelling was asked first", "observed": [o0, o1], "details": {}})
+    # published-exact stream: conversions between the two units of a published '<a>-<b> relationship' whose target is the unit the bridge
+    # converts to (hartree for sources Hz, 1/m, kg, K, u; Hz, 1/m, kg, K for sources hartree, J, eV) must reproduce NIST's number itself
+    # (raw text of the same set) to binary64 precision, not merely to CODATA precision
+    for year in (2014, 2018):
+        for (lname, ltext), (rname, rtext) in PUBLISHED_EXACT:
+            key_name = f"{lname}-{rname} relationship"
+            try:
+                want = nist_value(raw[year], key_name)
+            except KeyError:
+                continue
+            out = impl_call(ctxs[year], ltext, rtext)
+            corr.count("published-exact")
+            if out[0] != "val" or abs(Fraction(out[1]) - want) > TOL_EXACT * abs(want):
+                corr.failures.append({"stream": "oracle:published-exact", "case": {"year": year, "a": ltext, "b": rtext, "published": key_name},
+                                      "what": f"{ltext!r} -> {rtext!r} gives {out}, NIST publishes {float(want)!r} as the {key_name}", "observed": out, "details": {}})
+    # glue stream: str / Quantity / Unit arguments, lru_cache, fresh and long-lived objects, the singleton, Datum.to_units
+    glue_terms, glue_meta = [], []
+    try:
+        hists = glue_histories(ctx, si, cases)
+    except Exception as e:
+        hists = []
+        corr.errors.append(f"glue stream generator failed: {e!r}")
+    for year, objkind, calls in hists:
+        outs = run_glue_history(year, objkind, calls, ctxs)
+        descs = [[c_[0], c_[3], bool(c_[6])] for c_ in calls]
+        model_ok = True
+        items = []
+        for i, (c_, out) in enumerate(zip(calls, outs)):
+            da, xa, ea, db, xb, eb, via = c_
+            corr.count("glue")
+            corr.hit("glue arg kinds " + da[0] + "," + db[0] + (" via Datum.to_units" if via else "") + " on " + objkind)
+            earlier = [j for j in range(i) if calls[j][0] == da and calls[j][3] == db]
+            if earlier:
+                corr.hit("glue: identical key asked again (cache hit)")
+            eq_earlier = [j for j in range(i) if j not in earlier and "q" in (da[0], db[0]) and calls[j][0][0] == da[0] and calls[j][3][0] == db[0]
+                          and pint_equal(si[year], calls[j][1], xa) and pint_equal(si[year], calls[j][4], xb)
+                          and (da[0] == "q" or calls[j][0] == da) and (db[0] == "q" or calls[j][3] == db)]
+            if eq_earlier:
+                corr.hit("glue: pint-equal Quantity key asked before (cache hit on a different spelling)")
+            if out[0] == "val":
+                corr.nontriv(("glue", year, objkind, i, str(da), str(db)))
+            case = {"year": year, "a": render(xa), "b": render(xb), "ea": xa, "eb": xb,
+                    "glue": {"obj": objkind, "calls": descs[:i + 1], "index": i}}
+            bad = judge(si[year], xa, xb, out, rerun=lambda x, y_, _c=ctxs[year]: impl_call(_c, render(x), render(y_)))
+            if bad:
+                det = dict(bad[1])
+                # the known finding seen through the cache: an earlier pint-equal Quantity request with an SI-prefixed NIST source
+                # left its (double-scaled) answer in the cache
+                for j in eq_earlier:
+                    bj = judge(si[year], calls[j][1], calls[j][4], outs[j], rerun=lambda x, y_, _c=ctxs[year]: impl_call(_c, render(x), render(y_)))
+                    if bj and outs[j] == out:
+                        alone = glue_call(fresh_context(year), da, db)
+                        det["poisoned_by"] = {"earlier_index": j, "earlier_a": render(calls[j][1]), "earlier_b": render(calls[j][4]),
+                                              "earlier_details": bj[1], "same_answer": True,
+                                              "alone_on_fresh_context_ok": alone[0] == "val" and judge(si[year], xa, xb, alone) is None}
+                        break
+                corr.failures.append({"stream": "oracle:glue", "case": case, "what": ("after earlier calls on the same object: " if i else "") + bad[0],
+                                      "observed": out, "details": det})
+            # the model replays the history: str, Quantity and Unit arguments
+            ta, tb = carg_term(da, ea), carg_term(db, eb)
+            et = expect_term(out)
+            if tr.get("gen_failed") or ta is None or tb is None or et is None \
+                    or (out[0] == "err" and out[1] not in ("DimensionalityError", "UndefinedUnitError", "ZeroDivisionError")) \
+                    or not all(d_[0] != "s" or (d_[1].isascii() and text_in_subset(ctxs[year], d_[1], tr)) for d_ in (da, db)):
+                model_ok = False
+            else:
+                items.append(f"({ta}, {tb}, {et})")
+        if model_ok and items and not tr.get("gen_failed"):
+            glue_terms.append(f"({cz(year)}, [{'; '.join(items)}])")
+            glue_meta.append((year, objkind, calls, outs))
+        else:
+            corr.hit("glue: history judged by the oracle only (a text outside the modelled subset or an unmodelled exception class)")
     # determinism: re-issue a shuffled sample of the earlier cases on the long-lived contexts and on fresh ones
     keys = [k for k in answers]
     ctx.rng.shuffle(keys)
@@ -979,6 +1268,17 @@ def correspond(ctx):
         got, _ = coqrun.eval_terms("C03text", ["QV.Common.Outcome", "QV.Common.UnitsC03", "QV.Model.Units", "QV.Model.UnitsText"], "",
                                    [f"(conv_text (ctx_of {cz(case['year'])}) {cstr(case['a'])} {cstr(case['b'])}, parse_text {cstr(case['a'])}, parse_text {cstr(case['b'])})"])
         corr.disagreements.append({"stream": "text", "case": case, "impl": out, "model": got})
+    # glue histories through the model of the cache
+    G_REQ = ["QV.Common.Outcome", "QV.Common.UnitsC03", "QV.Model.Units", "QV.Model.UnitsText", "QV.Model.UnitsGlue"]
+    gbad, gerrors = coqrun.eval_bad_indices("C03glue", G_REQ, "", "check_case_glue", glue_terms, shard=12, ty="Z * list (carg * carg * cexpect)")
+    corr.errors.extend(f"glue shard {k}: {e}" for k, e in gerrors)
+    corr.notes.append(f"glue stream: {len(glue_terms)} call histories ({sum(len(m_[2]) for m_ in glue_meta)} calls) replayed by the model of conversion_factor's lru_cache")
+    for bi in gbad[:6]:
+        year, objkind, calls, outs = glue_meta[bi]
+        got, _ = coqrun.eval_terms("C03glue", G_REQ, "", [f"run (ctx_of {cz(year)}) [] (map fst (snd {glue_terms[bi]}))"])
+        corr.disagreements.append({"stream": "glue", "case": {"year": year, "a": render(calls[-1][1]), "b": render(calls[-1][4]), "ea": calls[-1][1], "eb": calls[-1][4],
+                                                              "glue": {"obj": objkind, "calls": [[c_[0], c_[3], bool(c_[6])] for c_ in calls], "index": len(calls) - 1}},
+                                   "impl": outs, "model": got})
     corr.notes.append("tolerances: model vs implementation 1e-12 relative; oracle by bridge kind: 1e-12 (same dimension, energy/mol, default-route "
                       "frequency), 1e-9 (frequency/wavenumber/mass via published relationships; temperature 2018), 2e-8 (temperature 2014), 1e-9 x total |exponent| of au_* units")
     return corr
@@ -993,6 +1293,31 @@ def _rejudge(ctx, case):
         plain, prefixes = tr["plain"], tr["prefixes"]
     year = case["year"]
     si = SI(raw[year], plain, prefixes, year)
+    if case.get("published"):
+        out = impl_call(contexts()[year], case["a"], case["b"])
+        want = nist_value(raw[year], case["published"])
+        ok = out[0] == "val" and abs(Fraction(out[1]) - want) <= TOL_EXACT * abs(want)
+        return out, (None if ok else (f"not NIST's published {case['published']} ({float(want)!r})", {}))
+    if case.get("glue"):
+        g = case["glue"]
+        if g.get("obj") == "singleton":
+            import qcelemental
+            cobj = qcelemental.constants
+        else:
+            cobj = fresh_context(year)
+        out = None
+        for da, db, via in g["calls"]:
+            out = glue_call(cobj, da, db, via_datum=via)
+
+        def tup0(e):
+            if isinstance(e, (list, tuple)):
+                if e and e[0] == "num":
+                    return ("num", Fraction(e[1]))
+                return tuple(tup0(x) for x in e)
+            return e
+        a, b = tup0(case["ea"]), tup0(case["eb"])
+        both = contexts()[year]
+        return out, judge(si, a, b, out, rerun=lambda x, y_: impl_call(both, render(x), render(y_)))
     cobj = contexts()[year]
     if case.get("prelude") is not None:
         cobj = fresh_context(year)               # history case: replay the earlier calls on a fresh context first
@@ -1071,6 +1396,13 @@ def _known_prefixed_bridge(f):
     factor (1e-9 relative; binary64 noise only) — i.e. the prefix was applied twice — and hence observed/expected is the
     prefix's scale up to the rounding of the published relationship constants."""
     det = f.get("details") or {}
+    pb = det.get("poisoned_by")
+    if pb:
+        # the same defect seen through lru_cache: an earlier request with a pint-equal Quantity key (e.g. Quantity(1 MHz) before
+        # Quantity(1e6 Hz)) is itself an instance of the double scaling, its answer is what was returned (bit for bit), and the
+        # present request alone on a fresh context object is answered correctly
+        return bool(pb.get("same_answer")) and bool(pb.get("alone_on_fresh_context_ok")) \
+            and _known_prefixed_bridge({"details": pb.get("earlier_details") or {}})
     if not det.get("crosses_bridge") or "ratio_num" not in det:
         return False
     ratio = Fraction(int(det["ratio_num"]), int(det["ratio_den"]))
@@ -1106,8 +1438,25 @@ LEVEL_TEXT = (
     "single NIST-relationship source unit and EVERY target expression across a one-transformer bridge the factor is exactly prefix^2 times the "
     "unprefixed one), C03_unprefixed_bridge_examples. Tied to the code by the fail-closed translator and by differential execution within 1e-12; "
     "the independent SI oracle judges every answer of the implementation. Wave 2: Model/UnitsText.v reads unit TEXT (C03_text_reader_examples "
-    "pins instances; ~7k spellings per quick run are read by the model from the text itself), C03_au_units_consistent tightened to 1e-9.")
+    "pins instances; ~7k spellings per quick run are read by the model from the text itself), C03_au_units_consistent tightened to 1e-9. "
+    "Wave 3: C03_linear_source_all_paths / C03_linear_target_all_paths (a numeric prefactor scales EVERY conversion: same dimension, every bridge, "
+    "every error), C03_unprefixed_nist_source_any_target (an unprefixed NIST unit to every target expression uses the published value exactly once), "
+    "C03_published_roundtrip and C03_default_route_roundtrip (a->b then b->a = 1 across the bridges: 4e-8 / 1e-8), and the glue of conversion_factor "
+    "(Model/UnitsGlue.v: str / Quantity / Unit arguments, functools.lru_cache with LRU eviction): C03_str_entry_point_is_text_model, "
+    "C03_quantity_argument_is_prefactor, C03_cache_transparent (any history of calls with stable keys is answered as without a cache), "
+    "C03_cache_transparent_str_history (EVERY history of str calls), C03_cache_stable_same_dimension, and C03_cache_poisoned_refuted (Quantity(1 MHz) "
+    "then Quantity(1e6 Hz) -> hartree: the unprefixed request gets the double-scaled cached answer; same root cause as the known finding).")
 LEVEL_NOTE = (
+    "Clause map (full version at the top of coq/Props/C03.v): same dimension = SI ratio -> C03_same_dimension_is_SI_ratio, C03_parse_is_algebraic, "
+    "C03_anchored*, C03_au_units_consistent; diagonal/reciprocal/chain -> C03_diagonal, C03_reciprocal, C03_chain; linear in a prefactor -> "
+    "C03_linear_in_*_prefactor and C03_linear_*_all_paths (every path); NIST values to/from hartree -> C03_nist_bridges, C03_relationships_reproduced, "
+    "C03_unprefixed_nist_source_any_target; other bridges = physics -> C03_default_route_bridge, C03_bridge_constants_are_physics, "
+    "C03_relationships_consistent_with_physics (false for SI-prefixed NIST sources: C03_prefixed_bridge_refuted / _characterised); a->b->a = 1 -> "
+    "C03_reciprocal, C03_published_roundtrip, C03_default_route_roundtrip; unrelated dimensions raise -> C03_unrelated_dims_error, "
+    "C03_number_only_if_dimension_reached; entry point glue (str/Quantity/Unit, lru_cache) -> C03_cache_* and C03_str_entry_point_is_text_model, with "
+    "conversion_factor / ureg / Quantity / Datum.to_units pinned verbatim by the translator; energy<->energy/mol, Datum.to_units, the singleton, "
+    "the lazily built registry: correspondence only. MISSING: a render/parse round trip of the text reader for all expressions (only pinned examples "
+    "+ ~7k texts per run). Unit arguments are identified by ordered container in the cache model (pint: unordered). "
     "The proof content is algebra over the model plus table consistency; the tie carries the weight: pint (parser, alias and prefix resolution, "
     "UnitsContainer, Context graph search, conversion) is external code, modelled by hand in Model/Units.v on expressions that are already "
     "resolved to canonical (prefix, unit) atoms, and tied only by correspondence (about 15k conversions per quick run, 0 tolerance beyond 1e-12 "
